@@ -326,6 +326,48 @@ def run(tier):
                 q.pop()
         ck.sub(f"{k} tokens: solver-chosen classes with blocking clauses", "E-RX", "holds" if len(found) == nf0 else "flagged",
                queries=q.n - nq0, bound=f"{k} tokens, total <= {ntop} code points", sat_models=len(found) - nf0)
+    # keywords whose spacing differs from a plain NAME are longer than the code-point bound: one concrete representative per
+    # spacing group, next to a symbolic neighbour on either side
+    name_group = gidx[("rule", name_rule, False)]
+    reps_kw = {}
+    for kw in keywords:
+        gk = gidx[("kw", kw, False)]
+        if gk != name_group:
+            reps_kw.setdefault(gk, kw)
+    nq0, nf0 = q.n, len(found)
+    for gk, kw in sorted(reps_kw.items()):
+        kwc = [ord(c) for c in kw]
+        for nb in (1, 2, 3):
+            for side in (0, 1):
+                cs = [z3.Int(f"k{gk}_{nb}_{side}_{i}") for i in range(nb)]
+                chars = (kwc + cs) if side == 0 else (cs + kwc)
+                pieces = [mk_piece(kwc), mk_piece(cs)] if side == 0 else [mk_piece(cs), mk_piece(kwc)]
+                q.push()
+                q.add(*[z3.And(c >= 0, c <= rx.MAXCP) for c in cs])
+                q.add(*[P.valid for P in pieces])
+                if q.check() != "sat":
+                    q.pop()
+                    continue
+                q.add(z3.Not(seq_good(pieces, chars)))
+                while True:
+                    r = q.check()
+                    if r != "sat":
+                        if r != "unsat":
+                            ck.undecided.append(f"keyword {kw} side {side} n={nb}: {r}")
+                        break
+                    m = q.model()
+                    w = rx.model_string(m, cs)
+                    P = pieces[1 - side]
+                    kv = m.eval(P.kind).as_long()
+                    ud = z3.is_true(m.eval(P.is_ud, model_completion=True))
+                    blk = [P.kind == kv, P.is_ud == ud]
+                    if kv == rx.LIT:
+                        blk.append(cs[0] == ord(w[0]))
+                    found.append((kw, w) if side == 0 else (w, kw))
+                    q.add(z3.Not(z3.And(blk)))
+                q.pop()
+    ck.sub("keywords with their own spacing row (concrete representative) next to a symbolic token", "E-RX", "holds" if len(found) == nf0 else "flagged",
+           queries=q.n - nq0, representatives=sorted(reps_kw.values()), sat_models=len(found) - nf0)
     ck.add_queries("z3", q.n, q.secs)
     ck.states += q.n
     ck.sub("all token-count plans", "E-RX", "holds" if not found else "flagged", queries=q.n, solver_s=round(q.secs, 1),
@@ -353,8 +395,11 @@ def run(tier):
         if back == exp:
             raise HarnessError(f"solver model does not reproduce: {texts!r} -> {fmt!r} re-lexes fine")
         types = [cls_of(tk.type, keywords) for tk in toks]
+        kwtexts = [tk.value for tk in toks if tk.type in keywords and gidx.get(("kw", tk.type, False)) != gidx[("rule", name_rule, False)]]
+        if kwtexts:
+            types = [("KW:" + tk.value) if tk.value in kwtexts else ty for tk, ty in zip(toks, types)]
         key = dict(kind="seq", n=len(toks), types="|".join(types), cats="|".join(cat_of(ty) for ty in types),
-                   first2="|".join(types[:2]), last2="|".join(types[-2:]))
+                   first2="|".join(types[:2]), last2="|".join(types[-2:]), lead=(types[0] if types[0].startswith("KW:") else ""))
         if key["types"] in seen:
             continue
         seen.add(key["types"])
@@ -385,7 +430,7 @@ def cat_of(ty):
         return "DOT"
     if ty.startswith("UD_"):
         return "UD"
-    if ty in ("NAME", "KEYWORD"):
+    if ty in ("NAME", "KEYWORD") or ty.startswith("KW:"):
         return "WORD"
     if ty.endswith("_CONST") or "_CONST_" in ty:
         return "CHAR" if "CHAR" in ty else "NUM"
